@@ -5,6 +5,7 @@ descriptions of the changes already taken."""
 import json, os, re, sys, glob
 V = os.path.dirname(os.path.dirname(os.path.abspath(__file__)))
 id_ = sys.argv[1]
+x, y = (sys.argv[2], sys.argv[3]) if len(sys.argv) > 3 else ("E", "F")
 src = open("/tmp/seed/%s.prompt2.txt" % id_).read()
 head, rest = src.split("Two other engineers have already produced changes", 1)
 tail = rest[rest.index("Your task:"):]
@@ -17,8 +18,8 @@ for p in sorted(glob.glob(os.path.join(V, "seeded", id_, "*", "meta.json"))):
 mid = ("Other engineers have already produced %d changes for this property; do NOT repeat their ideas (pick different "
        "mechanisms,\ndifferent code sites or different trigger conditions - the more different the better; in particular "
        "look at code sites and\nmechanisms listed in the property record that nobody touched yet):\n" % len(taken)) + "\n".join(taken) + "\n\n"
-tail = tail.replace("(call them C and D;", "(call them E and F;").replace("-out/C/ (resp. .../D/)", "-out/E/ (resp. .../F/)") \
-           .replace("summary of C and D", "summary of E and F")
-assert "E and F" in tail and "-out/E/" in tail
-open("/tmp/seed/%s.prompt3.txt" % id_, "w").write(head + mid + tail)
+tail = tail.replace("(call them C and D;", "(call them %s and %s;" % (x, y)).replace(
+    "-out/C/ (resp. .../D/)", "-out/%s/ (resp. .../%s/)" % (x, y)).replace("summary of C and D", "summary of %s and %s" % (x, y))
+assert "%s and %s" % (x, y) in tail and "-out/%s/" % x in tail
+open("/tmp/seed/%s.prompt%s.txt" % (id_, "3" if x == "E" else "4"), "w").write(head + mid + tail)
 print(id_, len(taken), "taken")
